@@ -243,6 +243,9 @@ func (ex *Explorer) runPath(prefix []int, ss *solverSet) (res *PathResult) {
 	res = &PathResult{}
 	defer func() {
 		r := recover()
+		// the path is over: undecided queries of the reporting below (panic
+		// models, witness sampling) must not try to end it once more
+		p.ending = true
 		i.sched.killAll()
 		if gp, ok := r.(gorPanic); ok {
 			r = gp.tp // an unrecovered panic in a spawned goroutine ends the program, too
